@@ -34,6 +34,12 @@ CLAIMS = {
          "subscriber is handed it first, peek returns it, next_by applies its function to it. Each run executes all histories <= 4 operations "
          "(15 kinds) and 30k random ones on BehaviorSubject over Subject and over SubjectThreads. PARTIAL: the clause about concurrent "
          "producers over the thread-safe subject is not decided by this check.", "DESIGN.md section 5 C12"),
+ "C20": ("Theorems C20_announces / C20_group_trace / C20_flatten / C20_outer_term / C20_announced_first: for every script, key function "
+         "and terminal, the group_by machine announces one group per distinct key in order of first appearance, each before anything is "
+         "delivered through it; the subscriber of group k sees exactly the items of key k in source order and then the source's terminal "
+         "once; the stream of groups gets the terminal once; flattening reproduces the source. Each run executes all scripts <= 5 items over "
+         "4 values x 4 key functions x Subject/SubjectThreads groups x hot/cold sources on the crate, judges the implementation's trace with "
+         "the extracted predicates and compares it with the model's.", "DESIGN.md section 5 C20"),
 }
 
 checks = []
